@@ -416,7 +416,7 @@ def timeBad (t : TimeV) : Bool :=
   | _ => dateBad t || clockBad t
 
 def checkStructure (c : Ctx) (evs : List Ev) : Verdict :=
-  let fuel := evs.length + 2
+  let fuel := 3 * evs.length + 8   -- every nesting level spends at most three units (value, container, item loop)
   match evs with
   | .beginDoc :: .version 0 :: rest =>
     match (do
